@@ -4,6 +4,7 @@
    journal mutex, draw the seqno, apply item by item, publish, release; version-upgrade bumps anywhere), are ..._partial:
    they give the linearization order the search then finds — the order in which the journal mutex was taken. *)
 From FJ Require Import Bytes Conc ConcP.
+From FJ Require Db DbOrderP RecoverInvP.
 
 (* for EVERY interleaving: the memtable receives writes in seqno order (newest first in the list), and a seqno is drawn
    under the journal mutex, so the order that decides what a read of the newest version returns is the order in which
@@ -17,5 +18,17 @@ Theorem C14_nothing_applied_is_lost_partial : forall (n : N) (es : list event) (
   crun n s es = Some s' -> (forall p, In p (c_mem s) -> In p (c_mem s')) /\ c_seq s <= c_seq s'.
 Proof. exact nothing_applied_is_lost. Qed.
 
+(* at the level of the database model (sequential: one operation at a time, as the journal mutex makes them): after EVERY program
+   of writes, batches, clears, maintenance, deletions and reopens the journal — sealed files oldest first, then the active file —
+   holds its batches in strictly increasing seqno order, all below the counter: journal order = seqno order = commit order *)
+Theorem C14_journal_order_is_seqno_order : forall mode filters (ops : list RecoverInvP.rop),
+  let d := fold_left RecoverInvP.rstep ops (Db.db_init mode filters) in
+  RecoverInvP.incr 0 (RecoverInvP.J d) /\ forall b, In b (RecoverInvP.J d) -> Reader.rb_seqno b < Db.d_seqno d.
+Proof.
+  intros mode filters ops d.
+  exact (proj2 (RecoverInvP.rrun_inv ops (Db.db_init mode filters) (DbOrderP.dinv_init mode filters) (RecoverInvP.JS_init mode filters))).
+Qed.
+
+Print Assumptions C14_journal_order_is_seqno_order.
 Print Assumptions C14_apply_order_is_seqno_order_partial.
 Print Assumptions C14_nothing_applied_is_lost_partial.
